@@ -130,6 +130,60 @@ class Parser:
             return ("struct", path, fields)
         return ("path", path)
 
+def use_imports(text):
+    """name -> list of full paths for every item the `use` declarations of a (test-free, comment-free) file bring into scope; `a as b` is
+    listed under b with the path of a; a glob import is listed under '*'"""
+    out = {}
+    msk = gc.mask_literals(text)
+    for m in re.finditer(r"\b(?:pub(?:\([^)]*\))?\s+)?use\s+([^;]+);", msk):
+        def expand(prefix, tree):
+            tree = tree.strip()
+            depth, cur, parts = 0, "", []
+            for ch in tree:
+                if ch == "{": depth += 1
+                elif ch == "}": depth -= 1
+                if ch == "," and depth == 0: parts.append(cur); cur = ""
+                else: cur += ch
+            if cur.strip(): parts.append(cur)
+            for part in parts:
+                part = part.strip()
+                bm = re.fullmatch(r"((?:[\w]+\s*::\s*)*)\{(.*)\}", part, re.S)
+                if bm:
+                    expand(prefix + re.sub(r"\s+", "", bm.group(1)), bm.group(2)); continue
+                am = re.fullmatch(r"((?:\w+\s*::\s*)*)(\w+|\*)(?:\s+as\s+(\w+))?", part)
+                if not am:
+                    out.setdefault("?", []).append(prefix + part); continue
+                path = prefix + re.sub(r"\s+", "", am.group(1)) + am.group(2)
+                name = am.group(3) or am.group(2)
+                if name == "self": name = (prefix.rstrip(":").split("::") or ["self"])[-1]; path = prefix.rstrip(":")
+                out.setdefault(name, []).append(path)
+        expand("", m.group(1))
+    return out
+
+# where an unqualified callee name, or the module a qualified one is reached through, has to come from
+EXPECTED_IMPORTS = {
+    "srp_internal": {"crate::srp_internal"}, "srp_internal_client": {"crate::srp_internal_client"},
+    "calculate_reconnect_proof": {"crate::srp_internal::calculate_reconnect_proof"}, "calculate_server_proof": {"crate::srp_internal::calculate_server_proof"},
+    "calculate_u": {"crate::srp_internal::calculate_u"}, "calculate_interleaved": {"crate::srp_internal::calculate_interleaved"},
+    "calculate_S": {"crate::srp_internal::calculate_S"}, "calculate_client_S": {"crate::srp_internal_client::calculate_client_S"},
+    "calculate_client_proof_with_custom_value": {"crate::srp_internal_client::calculate_client_proof_with_custom_value"},
+    "calculate_xor_hash": {"crate::srp_internal::calculate_xor_hash"},
+    "calculate_world_server_proof": {"crate::vanilla_header::calculate_world_server_proof", "internal::calculate_world_server_proof"},
+}
+
+def check_provenance(text, rel, names):
+    """every name in `names` (callees written without a path, and the modules qualified callees go through) is either a function defined
+    exactly once in this file or imported exactly once, from where EXPECTED_IMPORTS says; no glob import could supply it"""
+    imp = use_imports(text)
+    msk = gc.mask_literals(text)
+    globs = [p for p in imp.get("*", []) if not p.startswith(("core::", "std::"))]
+    for n in sorted(names):
+        local = len(re.findall(r"\bfn\s+" + re.escape(n) + r"\b", msk)) + len(re.findall(r"\bmod\s+" + re.escape(n) + r"\b", msk))
+        paths = imp.get(n, [])
+        if local == 1 and not paths: continue
+        if local == 0 and len(paths) == 1 and paths[0] in EXPECTED_IMPORTS.get(n, set()) and not globs: continue
+        raise Unsupported("%s: the name %s is defined %d times here and imported from %s (glob imports: %s)" % (rel, n, local, paths, globs))
+
 class Fn:
     def __init__(self, repo, rel, name):
         self.rel, self.name = rel, name
@@ -168,6 +222,8 @@ class Fn:
         self.toks = tokenize(body.strip()[1:-1])
         self.locals = list(self.params)
         self.stmts = []
+        self.free_names = set()
+        self.text = text
     # ---- lowering
     def atom(self, e):
         k = e[0]
@@ -185,6 +241,9 @@ class Fn:
         raise Unsupported("not an atom: " + repr(e)[:100])
     def callname(self, path):
         p = list(path)
+        if len(p) == 1: self.free_names.add(p[0])
+        elif p[0] in ("srp_internal", "srp_internal_client") and len(p) == 2: self.free_names.add(p[0])
+        elif p[0] == "crate" or p[0] == "self" or p[0] == "super": raise Unsupported("call through an absolute / relative path: " + "::".join(p))
         while len(p) > 1 and p[0] in MODULE_PREFIXES: p = p[1:]
         return "::".join(p)
     def rhs(self, e):
@@ -273,6 +332,7 @@ def translate_one(repo, rel, fn):
     try:
         f = Fn(repo, rel, fn)
         tail = f.translate()
+        check_provenance(f.text, rel, f.free_names)
         return "⟨%s, [%s], [%s], %s, none⟩" % (lean_str(f.self_type), ", ".join(lean_str(x) for x in f.params), ", ".join(f.stmts), tail)
     except (Unsupported, gc.Missing) as ex:
         return '⟨"", [], [], Ret.val (Rhs.atom Atom.self_), some %s⟩' % lean_str(str(ex))
